@@ -460,6 +460,120 @@ fn run_call(c: &AnyClient, rt: &tokio::runtime::Runtime, p: &Plan) -> Result<(),
     }
 }
 
+/// A proxy (tokio_tungstenite accept + repe::proxy_connection) in front of a raw TCP capture peer.
+fn start_proxy(rt: &tokio::runtime::Runtime) -> (SocketAddr, Arc<Shared>) {
+    let (ua, ush) = tcp_capture();
+    let proxy_addr = rt.block_on(async {
+        let l = tokio::net::TcpListener::bind("127.0.0.1:0").await.expect("bind");
+        let addr = l.local_addr().unwrap();
+        tokio::spawn(async move {
+            loop {
+                let Ok((s, _)) = l.accept().await else { break };
+                tokio::spawn(async move {
+                    let Ok(ws) = tokio_tungstenite::accept_async(s).await else { return };
+                    let Ok(up) = AsyncClient::connect(ua).await else { return };
+                    let _ = repe::proxy_connection(ws, up).await;
+                });
+            }
+        });
+        addr
+    });
+    (proxy_addr, ush)
+}
+
+#[allow(clippy::too_many_arguments)]
+fn proxy_non_frame_messages(args: &Args, rep: &mut Report, rt: &tokio::runtime::Runtime, rng: &mut Rng, proxy_addr: SocketAddr, ush: &Arc<Shared>, deadline: Instant, prefix: &str) {
+    // ---- part D: a downstream message that is NOT exactly one frame (a frame followed by more bytes, two frames glued together,
+    // a frame cut short). Whatever the proxy decides to do with it, what reaches the upstream connection is whole frames only:
+    // either nothing, or exactly the one frame the message starts with — never the stray bytes.
+    let mut odd = 0u64;
+    let res: Result<(), String> = rt.block_on(async {
+        for i in 0..args.budget(120, 2000) {
+            if Instant::now() > deadline {
+                break;
+            }
+            let mut r = rng.fork(3_000_000 + i);
+            let (mut h, q, b) = arbitrary_frame(&mut r, false);
+            h.notify = 0;
+            let frame = oracle::frame(h, &q[..q.len().min(300)], &b[..b.len().min(2000)]);
+            let kind = r.below(3);
+            let mut msg = frame.clone();
+            match kind {
+                0 => { let k = 1 + r.usize_below(60); msg.extend_from_slice(&r.bytes(k)); }
+                1 => msg.extend_from_slice(&frame),
+                _ => msg.truncate(48 + r.usize_below(frame.len() - 47).min(frame.len() - 49).max(0)),
+            }
+            *ush.reply.lock().unwrap() = Reply::default();
+            let _ = ush.take_frames();
+            ush.junk.lock().unwrap().take();
+            let (mut ws, _) = tokio::time::timeout(T, tokio_tungstenite::connect_async(format!("ws://{proxy_addr}/"))).await.map_err(|_| "connect timeout")?.map_err(|e| e.to_string())?;
+            ws.send(WsMsg::Binary(msg.clone().into())).await.map_err(|e| format!("ws send: {e}"))?;
+            // the proxy either answers, or closes; wait for either
+            let _ = tokio::time::timeout(Duration::from_secs(5), async {
+                while let Some(Ok(m)) = ws.next().await {
+                    if matches!(m, WsMsg::Binary(_) | WsMsg::Close(_)) {
+                        break;
+                    }
+                }
+            })
+            .await;
+            let _ = ws.close(None).await;
+            tokio::time::sleep(Duration::from_millis(20)).await;
+            let frames = ush.take_frames();
+            let junk = ush.junk.lock().unwrap().take();
+            rep.eval();
+            odd += 1;
+            rep.distinct(&(30, kind, len_class(frame.len())));
+            let what = ["frame followed by stray bytes", "two frames in one message", "truncated frame"][kind as usize];
+            if let Some(j) = junk {
+                rep.violation(format!("{prefix}:proxy-forwarded-non-frame-bytes:{}", ["trailing", "glued", "truncated"][kind as usize]), format!("downstream message = {what} ({} bytes, frame {} bytes): upstream received bytes that are not whole frames: {j}", msg.len(), frame.len()), json!({"message": hex(&msg)}));
+                return Ok(());
+            }
+            let ok = match kind {
+                // glued: the two identical frames, one of them, or nothing
+                1 => frames.iter().all(|f| *f == frame) && frames.len() <= 2,
+                2 => frames.is_empty(),
+                _ => frames.is_empty() || (frames.len() == 1 && frames[0] == frame),
+            };
+            if !ok {
+                rep.violation(format!("{prefix}:proxy-forwarded-non-frame-bytes:{}", ["trailing", "glued", "truncated"][kind as usize]), format!("downstream message = {what}: upstream received {} frame(s), first {}", frames.len(), frames.first().map(|f| hex_trunc(f, 64)).unwrap_or_default()), json!({"message": hex(&msg)}));
+                return Ok(());
+            }
+        }
+        Ok(())
+    });
+    if let Err(e) = res {
+        rep.inconclusive(format!("proxy part D: {e}"));
+    }
+    rep.count("proxy_messages_that_are_not_one_frame", odd);
+}
+
+/// C05 stage `proxy`: only the "what reaches the upstream connection is whole frames" part, reported under C05.
+pub fn run_c05_proxy(args: &Args) -> Report {
+    let mut rep = Report::new(
+        args,
+        "c05-proxy-upstream-stream",
+        "downstream WebSocket messages that are not exactly one frame (a frame followed by stray bytes, two frames glued together, a \
+         truncated frame) sent through proxy_connection; a raw TCP capture peer splits the upstream byte stream on declared lengths; \
+         oracle: the upstream stream consists of whole frames that were sent, never of stray bytes; distinct = (kind, frame length class)",
+    );
+    let body = catching(|| {
+        let rt = tokio::runtime::Builder::new_multi_thread().worker_threads(2).enable_all().build().expect("runtime");
+        let mut rng = Rng::new(args.seed ^ 0xC05_C11);
+        let (proxy_addr, ush) = start_proxy(&rt);
+        let deadline = Instant::now() + Duration::from_secs(if args.thorough() { 300 } else { 40 });
+        proxy_non_frame_messages(args, &mut rep, &rt, &mut rng, proxy_addr, &ush, deadline, "C05");
+        rt.shutdown_timeout(Duration::from_secs(2));
+    });
+    if let Err(p) = body {
+        rep.inconclusive(format!("harness panic: {p}"));
+    }
+    if rep.evaluations == 0 {
+        rep.inconclusive("no message went through the proxy");
+    }
+    rep
+}
+
 pub fn run(args: &Args) -> Report {
     let mut rep = Report::new(
         args,
@@ -601,22 +715,7 @@ fn run_inner(args: &Args, rep: &mut Report) {
     }
 
     // ---- part C: proxy_connection — raw WS peer -> proxy -> raw TCP capture peer, and back
-    let (ua, ush) = tcp_capture();
-    let proxy_addr = rt.block_on(async {
-        let l = tokio::net::TcpListener::bind("127.0.0.1:0").await.expect("bind");
-        let addr = l.local_addr().unwrap();
-        tokio::spawn(async move {
-            loop {
-                let Ok((s, _)) = l.accept().await else { break };
-                tokio::spawn(async move {
-                    let Ok(ws) = tokio_tungstenite::accept_async(s).await else { return };
-                    let Ok(up) = AsyncClient::connect(ua).await else { return };
-                    let _ = repe::proxy_connection(ws, up).await;
-                });
-            }
-        });
-        addr
-    });
+    let (proxy_addr, ush) = start_proxy(&rt);
     let mut done = 0u64;
     let res: Result<(), String> = rt.block_on(async {
         let (mut ws, _) = tokio::time::timeout(T, tokio_tungstenite::connect_async(format!("ws://{proxy_addr}/"))).await.map_err(|_| "connect timeout")?.map_err(|e| e.to_string())?;
@@ -676,69 +775,7 @@ fn run_inner(args: &Args, rep: &mut Report) {
     if let Err(e) = res {
         rep.inconclusive(format!("proxy part: {e}"));
     }
-    // ---- part D: a downstream message that is NOT exactly one frame (a frame followed by more bytes, two frames glued together,
-    // a frame cut short). Whatever the proxy decides to do with it, what reaches the upstream connection is whole frames only:
-    // either nothing, or exactly the one frame the message starts with — never the stray bytes.
-    let mut odd = 0u64;
-    let res: Result<(), String> = rt.block_on(async {
-        for i in 0..args.budget(24, 300) {
-            if Instant::now() > deadline {
-                break;
-            }
-            let mut r = rng.fork(3_000_000 + i);
-            let (mut h, q, b) = arbitrary_frame(&mut r, false);
-            h.notify = 0;
-            let frame = oracle::frame(h, &q[..q.len().min(300)], &b[..b.len().min(2000)]);
-            let kind = r.below(3);
-            let mut msg = frame.clone();
-            match kind {
-                0 => { let k = 1 + r.usize_below(60); msg.extend_from_slice(&r.bytes(k)); }
-                1 => msg.extend_from_slice(&frame),
-                _ => msg.truncate(48 + r.usize_below(frame.len() - 47).min(frame.len() - 49).max(0)),
-            }
-            *ush.reply.lock().unwrap() = Reply::default();
-            let _ = ush.take_frames();
-            ush.junk.lock().unwrap().take();
-            let (mut ws, _) = tokio::time::timeout(T, tokio_tungstenite::connect_async(format!("ws://{proxy_addr}/"))).await.map_err(|_| "connect timeout")?.map_err(|e| e.to_string())?;
-            ws.send(WsMsg::Binary(msg.clone().into())).await.map_err(|e| format!("ws send: {e}"))?;
-            // the proxy either answers, or closes; wait for either
-            let _ = tokio::time::timeout(Duration::from_secs(5), async {
-                while let Some(Ok(m)) = ws.next().await {
-                    if matches!(m, WsMsg::Binary(_) | WsMsg::Close(_)) {
-                        break;
-                    }
-                }
-            })
-            .await;
-            let _ = ws.close(None).await;
-            tokio::time::sleep(Duration::from_millis(20)).await;
-            let frames = ush.take_frames();
-            let junk = ush.junk.lock().unwrap().take();
-            rep.eval();
-            odd += 1;
-            rep.distinct(&(30, kind, len_class(frame.len())));
-            let what = ["frame followed by stray bytes", "two frames in one message", "truncated frame"][kind as usize];
-            if let Some(j) = junk {
-                rep.violation(format!("C01:proxy-forwarded-non-frame-bytes:{}", ["trailing", "glued", "truncated"][kind as usize]), format!("downstream message = {what} ({} bytes, frame {} bytes): upstream received bytes that are not whole frames: {j}", msg.len(), frame.len()), json!({"message": hex(&msg)}));
-                return Ok(());
-            }
-            let ok = match kind {
-                // glued: the two identical frames, one of them, or nothing
-                1 => frames.iter().all(|f| *f == frame) && frames.len() <= 2,
-                2 => frames.is_empty(),
-                _ => frames.is_empty() || (frames.len() == 1 && frames[0] == frame),
-            };
-            if !ok {
-                rep.violation(format!("C01:proxy-forwarded-non-frame-bytes:{}", ["trailing", "glued", "truncated"][kind as usize]), format!("downstream message = {what}: upstream received {} frame(s), first {}", frames.len(), frames.first().map(|f| hex_trunc(f, 64)).unwrap_or_default()), json!({"message": hex(&msg)}));
-                return Ok(());
-            }
-        }
-        Ok(())
-    });
-    if let Err(e) = res {
-        rep.inconclusive(format!("proxy part D: {e}"));
-    }
-    rep.count("proxy_messages_that_are_not_one_frame", odd);
+    proxy_non_frame_messages(args, rep, &rt, &mut rng, proxy_addr, &ush, deadline, "C01");
     rep.count("proxy_round_trips", done);
     if rep.get_count("client_frames_identical_to_spec_frame") == 0 || done == 0 {
         rep.inconclusive("a part observed nothing");
